@@ -152,9 +152,10 @@ def invalid_case(name, override, variant):
 def run():
     ck = Check("C18")
     rng = ck.rng("lattice")
-    rows = cover.covering(FACTORS, ck.pick(2, 3), rng, valid=valid, candidates=ck.pick(40, 25))
-    if not ck.quick and len(rows) > 700:
-        rows = rows[:700]
+    rows = cover.covering(FACTORS, 3, rng, valid=valid, candidates=25)
+    if not ck.quick:
+        for extra in range(3):       # three more independently generated 3-wise arrays
+            rows += cover.covering(FACTORS, 3, ck.rng("lattice", extra), valid=valid, candidates=25)
     tasks = [("tvf.checks.c18:valid_case", dict(row=r, seed=ck.subseed("row", i) % 2 ** 31), None) for i, r in enumerate(rows)]
     for i, st, val in farm.run(tasks, timeout=600, jobs=12, progress="C18-valid"):
         row = tasks[i][1]["row"]
@@ -186,7 +187,7 @@ def run():
     ck.tables["threeway_coverage"] = cover.coverage(rows, FACTORS, 3)
     ck.require_events("valid configurations run to completion", "invalid configurations offered to the constructor")
     return ck.finish(
-        rule="valid: greedy pairwise (quick) / 3-wise (thorough) covering array over 16 constructor options (kernel, resampler, clustering, normalize, "
+        rule="valid: greedy 3-wise covering array (quick: one array, ~190 rows, measured coverage of feasible triples in tables; thorough: four arrays) over 16 constructor options (kernel, resampler, clustering, normalize, "
              "cluster_every, n_max_clusters, split_threshold, metric mode/ess_ratio, n_steps/n_max_steps, vec/scalar/blobs, boundary kinds, pool "
              "{None,1,2,object}, save_every, n_dim, n_particles incl. the default 2*n_dim), each row in its own process with a 400-iteration "
              "budget; invalid: 34 one-factor violations x context variants; non-trivial = the run executed at least one iteration",
